@@ -105,3 +105,112 @@ package collector
 //@   props C09
 //@   assume_frame
 //@   modifies
+
+// ---------------------------------------------------------------------------
+// large store: container/heap over collectStoreHeap
+// ---------------------------------------------------------------------------
+// heapOK[c]: c.heap is heap-ordered by the store's comparator (greatest, i.e. worst-ranked, entry at
+// the root). Established by heap.Init, kept by heap.Push / heap.Pop (ASSUMED contracts of the standard
+// library, specialised to this store). The store's own Push / Pop / Swap are the callbacks of
+// container/heap: called directly they move entries without restoring the order, so they drop heapOK.
+//@ ghost var heapOK map[ref]bool
+
+//@ field_contract collectStoreHeap.compare = github.com/blugelabs/bluge/search/collector.collectorCompareSpec
+
+//@ func container/heap.Init(h)
+//@   props C09
+//@   trusted
+//@   modifies heapOK, elems(ptr(collectStoreHeap, iref(h)).heap)
+//@   effect heapOK == old(heapOK)[iref(h) := true]
+
+//@ func container/heap.Push(h, x)
+//@   props C09
+//@   trusted
+//@   requires [heap-ordered] heapOK[iref(h)]
+//@   modifies ptr(collectStoreHeap, iref(h)).heap, elems(ptr(collectStoreHeap, iref(h)).heap)
+//@   ensures len(ptr(collectStoreHeap, iref(h)).heap) == old(len(ptr(collectStoreHeap, iref(h)).heap)) + 1
+//@   ensures [same-or-new-array] base(ptr(collectStoreHeap, iref(h)).heap) == old(base(ptr(collectStoreHeap, iref(h)).heap)) || fresh(base(ptr(collectStoreHeap, iref(h)).heap))
+
+//@ func container/heap.Pop(h) (r)
+//@   props C09
+//@   trusted
+//@   requires [heap-ordered] heapOK[iref(h)]
+//@   requires [not-empty] len(ptr(collectStoreHeap, iref(h)).heap) > 0
+//@   modifies ptr(collectStoreHeap, iref(h)).heap, elems(ptr(collectStoreHeap, iref(h)).heap)
+//@   ensures len(ptr(collectStoreHeap, iref(h)).heap) == old(len(ptr(collectStoreHeap, iref(h)).heap)) - 1
+//@   ensures [same-array] base(ptr(collectStoreHeap, iref(h)).heap) == old(base(ptr(collectStoreHeap, iref(h)).heap))
+//@   ensures [popped-is-the-root] iref(r) == old(ptr(collectStoreHeap, iref(h)).heap[0])
+//@   ensures [popped-dominates-the-rest] forall j int :: (0 <= j && j < len(ptr(collectStoreHeap, iref(h)).heap)) ==> cmp(ptr(collectStoreHeap, iref(h)).heap[j], iref(r)) <= 0
+
+//@ func collectStoreHeap.Len() (n)
+//@   props C09
+//@   pure
+//@   requires c != nil
+//@   ensures n == len(c.heap)
+
+//@ func collectStoreHeap.Pop() (r)
+//@   props C09
+//@   requires c != nil && len(c.heap) > 0
+//@   modifies c.heap, heapOK
+//@   effect heapOK == old(heapOK)[c := false]
+//@   ensures len(c.heap) == old(len(c.heap)) - 1
+
+//@ func collectStoreHeap.Push(x)
+//@   props C09
+//@   requires c != nil
+//@   modifies c.heap, heapOK, elems(c.heap)
+//@   effect heapOK == old(heapOK)[c := false]
+
+//@ func collectStoreHeap.Swap(i, j)
+//@   props C09
+//@   requires c != nil && 0 <= i && i < len(c.heap) && 0 <= j && j < len(c.heap)
+//@   modifies heapOK, elems(c.heap)
+//@   effect heapOK == old(heapOK)[c := false]
+
+// Less(i, j): entry i ranks after entry j, so the root of the heap is the worst-ranked entry
+//@ func collectStoreHeap.Less(i, j) (r)
+//@   props C09
+//@   requires c != nil && 0 <= i && i < len(c.heap) && 0 <= j && j < len(c.heap)
+//@   modifies
+//@   ensures [root-is-the-worst] r <==> cmp(c.heap[i], c.heap[j]) > 0
+
+//@ func collectStoreHeap.add(doc)
+//@   props C09
+//@   requires c != nil && heapOK[c]
+//@   modifies c.heap, elems(c.heap)
+//@   ensures len(c.heap) == old(len(c.heap)) + 1 && heapOK[c]
+//@   ensures [same-or-new-array] base(c.heap) == old(base(c.heap)) || fresh(base(c.heap))
+
+//@ func collectStoreHeap.removeLast() (r)
+//@   props C09
+//@   requires c != nil && heapOK[c] && len(c.heap) > 0
+//@   modifies c.heap, elems(c.heap)
+//@   ensures len(c.heap) == old(len(c.heap)) - 1 && heapOK[c]
+//@   ensures [same-array] base(c.heap) == old(base(c.heap))
+//@   ensures [evicted-is-worst] forall j int :: (0 <= j && j < len(c.heap)) ==> cmp(c.heap[j], r) <= 0
+//@   ensures [evicted-was-the-root] r == old(c.heap[0])
+
+//@ func collectStoreHeap.AddNotExceedingSize(doc, size) (r)
+//@   props C09
+//@   requires c != nil && heapOK[c] && size >= 0
+//@   modifies c.heap, elems(c.heap)
+//@   ensures heapOK[c]
+//@   ensures [grows-until-full] old(len(c.heap)) < size ==> (r == nil && len(c.heap) == old(len(c.heap)) + 1)
+//@   ensures [evicts-when-full] old(len(c.heap)) >= size ==> len(c.heap) == old(len(c.heap))
+//@   ensures [evicted-is-worst] old(len(c.heap)) >= size ==> (forall j int :: (0 <= j && j < len(c.heap)) ==> cmp(c.heap[j], r) <= 0)
+
+// Final(skip): pops the len-skip worst entries, worst first, into the result from the back: the
+// result is in ranking order and every entry left behind (the skipped, better ones) precedes it
+//@ func collectStoreHeap.Final(skip, fixup) (r, err)
+//@   props C09
+//@   requires c != nil && heapOK[c] && skip >= 0
+//@   heap_wf
+//@   modifies *
+//@   ensures [page-length] err == nil ==> len(r) == ite(old(len(c.heap)) - skip > 0, old(len(c.heap)) - skip, 0)
+//@   ensures [page-in-ranking-order] err == nil ==> (forall p int, q int :: (0 <= p && p <= q && q < len(r)) ==> cmp(r[p], r[q]) <= 0)
+//@   ensures [skipped-entries-rank-before-the-page] err == nil ==> (forall j int, p int :: (0 <= j && j < len(c.heap) && 0 <= p && p < len(r)) ==> cmp(c.heap[j], r[p]) <= 0)
+//@   loop 1
+//@     invariant -1 <= i && i < size && size == count - skip && len(rv) == size && fresh(rv) && heapOK[c]
+//@     invariant len(c.heap) == skip + i + 1 && base(c.heap) == old(base(c.heap))
+//@     invariant forall p int, q int :: (i < p && p <= q && q < size) ==> cmp(rv[p], rv[q]) <= 0
+//@     invariant forall j int, p int :: (0 <= j && j < len(c.heap) && i < p && p < size) ==> cmp(c.heap[j], rv[p]) <= 0
